@@ -10,7 +10,7 @@
      inv3|q|sender|nonce|V3|acctdeploy|calldata|proof  dcl1|q|sender|maxfee|nonce|class
      dcl2|q|sender|maxfee|nonce|class|compiled         dcl3|q|sender|nonce|V3|acctdeploy|class|compiled
      dac1|q|contract|maxfee|nonce|class|salt|ctor      dac3|q|contract|nonce|V3|ctor|class|salt
-     l1h|q|contract|selector|nonce|calldata
+     l1h|q|contract|selector|nonce|calldata            unv|has_sig   (hash not recomputed by juno: "hash none")
      V3 = tip|l1amount|l1price|l2amount|l2price|l1data("-" or amount:price)|paymaster|nonce_da|fee_da
    block keys: num root seq ts txc evc blob g=(l1wei,l1fri,dwei,dfri,l2wei,l2fri) vs ver=(a.b.c decimal) parent
      t=<txspec>~<sig>~<hash>             (repeated, in order)
@@ -57,6 +57,7 @@ let parse_tx (s : string) : tx =
   | "dac3" :: q :: ct :: n :: a :: b :: c :: d :: e :: f :: g :: i :: j :: [ctor; ch; salt] ->
       DeployAccountV3 (qb q, h ct, h n, v3 [a; b; c; d; e; f; g; i; j], zs ctor, h ch, h salt)
   | ["l1h"; q; c; sel; n; cd] -> L1Handler (qb q, h c, h sel, h n, zs cd)
+  | ["unv"; hs] -> Unverified (qb hs)
   | _ -> failwith ("txspec " ^ s)
 
 let pairs (s : string) : (z * z) list =
@@ -132,13 +133,22 @@ let parse_state_block (items : string list) : diff =
 let () =
   read_lines (fun line ->
     (match words line with
-    | ["tx"; chain; spec] -> print_endline ("hash " ^ show_term (tx_hash (z_of_hex chain) (parse_tx spec)))
+    | ["tx"; chain; spec] ->
+        (match parse_tx spec with
+         | Unverified _ -> print_endline "hash none"
+         | t -> print_endline ("hash " ^ show_term (tx_hash (z_of_hex chain) t)))
     | "block" :: toks ->
         let b = parse_block toks in
         let h = b.b_hdr in
-        let v0134 = (match block_hash b with Some t -> t = block_hash_0134 b | None -> true) in
-        print_endline ("txc " ^ show_term (tx_commitment v0134 b.b_txs));
-        print_endline ("evc " ^ show_term (event_commitment b.b_rcpts));
+        let z i = z_of_int i in
+        let ge a b c = ver_ge h.h_ver ((z a, z b), z c) in
+        if ge 0 13 2 then begin
+          print_endline ("txc " ^ show_term (tx_commitment (ge 0 13 4) b.b_txs));
+          print_endline ("evc " ^ show_term (event_commitment b.b_rcpts))
+        end else begin
+          print_endline ("txc " ^ show_term (tx_commitment_ped (ge 0 11 1) b.b_txs));
+          print_endline ("evc " ^ show_term (event_commitment_ped b.b_rcpts))
+        end;
         print_endline ("rcc " ^ show_term (receipt_commitment b.b_rcpts));
         print_endline ("sdh " ^ show_term (sd_hash b.b_diff));
         print_endline ("sdl " ^ hex_of_z (sd_length b.b_diff));
